@@ -3,7 +3,7 @@ from collections import Counter
 
 import numpy as np
 
-from .. import sx, gen, lib, meaning as M, monitors, minimise, gateset, refexec, apiroute
+from .. import sx, gen, lib, meaning as M, monitors, minimise, gateset, gateset_sig, refexec, apiroute
 from .common import prog_features, sig, case_prog
 from . import execcommon as X
 
@@ -17,7 +17,7 @@ RULE = ("executable programs over the harness native gate set (1-,2-,3-qubit, sy
 ASSUMPTIONS = ["harness native gate set and its matrices (vf/gateset_sig.py)", "reference executor vf/refexec.py",
                "programs rejected by the emulator with JaqalError are judged by C12/C13/C14, not here"]
 TIERS = {"quick": {"shards": 8, "budget_s": 70}, "thorough": {"shards": 16, "budget_s": 420}}
-REQUIRE = {"busy-gates-with-unitary-inserted": 300, "keyword-calls-in-another-order": 500, "gate-set-variant:B": 100, "gate-set-variant:A": 100, "states-compared": 300, "gate:2q-asym": 50, "gate:3q": 20, "via-alias": 100, "via-macro": 50, "override-used": 30,
+REQUIRE = {"calls-of-stretched-variants": 500, "sections-with-a-repeated-prepare": 300, "busy-gates-with-unitary-inserted": 300, "keyword-calls-in-another-order": 500, "gate-set-variant:B": 100, "gate-set-variant:A": 100, "states-compared": 300, "gate:2q-asym": 50, "gate:3q": 20, "via-alias": 100, "via-macro": 50, "override-used": 30,
            "loop-in-section": 30, "probe:basis": 50, "probe:moved-alias": 100}
 ATOL = 1e-9
 
@@ -209,6 +209,42 @@ def basis_probe(rng, maxn):
     return ("circuit",) + tuple(g.header) + tuple(body)
 
 
+def stretch_some(rng, prog):
+    """Some calls of native gates replaced by calls of their stretched variants (gate set "As": every gate also exists as
+    <name>_s with one more, trailing, float): the state must not care about the factor."""
+    n = [0]
+
+    def rw(s):
+        if not isinstance(s, tuple):
+            return s
+        if s[0] == "gate" and s[1] in gateset_sig.RAW and gateset_sig.RAW[s[1]][1] is not None and rng.random() < 0.5:
+            n[0] += 1
+            return ("gate", s[1] + gateset_sig.STRETCH_SUFFIX) + s[2:] + (rng.choice([0.0, 0.5, 1.0, 2.5, 7.0]),)
+        return tuple(rw(x) for x in s)
+
+    return rw(prog), n[0]
+
+
+def repeat_prepare(rng, prog):
+    """A second prepare_all somewhere inside a top-level section: the subcircuit starts over, the gates before it are
+    discarded (they do not act on the reported state)."""
+    items = list(prog[1:])
+    spots = []
+    open_ = False
+    for i, s in enumerate(items):
+        if s == ("gate", "prepare_all"):
+            open_ = True
+        elif s == ("gate", "measure_all"):
+            open_ = False
+        elif open_ and s[0] not in sx.HEADER and s[0] != "macro":
+            spots.append(i + 1)
+    if not spots:
+        return prog, 0
+    i = rng.choice(spots)
+    items.insert(i, ("gate", "prepare_all"))
+    return ("circuit",) + tuple(items), 1
+
+
 def moved_alias_probe(rng, maxn):
     """X-only program whose aliases are bounded by lets that the override dictionary MOVES; the aliases are used
     directly at top level, inside macros that mention no constant at all, through an index parameter and through a
@@ -266,6 +302,9 @@ def shard(ctx):
             if rng.random() < 0.3:
                 prog, nb = insert_busy(rng, prog)
                 rec.count("busy-gates-with-unitary-inserted", nb)
+            if rng.random() < 0.12:
+                prog, nr = repeat_prepare(rng, prog)
+                rec.count("sections-with-a-repeated-prepare", nr)
             case = {"prog": prog}
             if rng.random() < 0.3:
                 ov = make_override(rng, prog)
@@ -273,6 +312,11 @@ def shard(ctx):
                     case["ov"] = ov
         case["npseed"] = rng.randrange(1 << 30)
         case["variant"] = "B" if rng.random() < 0.35 else "A"
+        if case["variant"] == "A" and not case.get("probe") and rng.random() < 0.2:
+            case["prog"], ns = stretch_some(rng, case["prog"])
+            if ns:
+                case["variant"] = "As"
+                rec.count("calls-of-stretched-variants", ns)
         if rng.random() < 0.25:
             case["api"] = rng.randrange(1 << 30)
         process(ctx, case, seen)
